@@ -244,6 +244,16 @@ def observe(res, case, S, partner, tags):
                 Eb[:, i[k], :] = np.outer(Lb[0], Rb[:, 0])
                 okg = okg and gr[k].shape == E.shape and close(gr[k], E, (0.0 if exact else cb * Eb + 1e-300))
             res.check(okg, 'grad', case, lambda: 'gradient cores differ at index %s' % i.tolist(), tg)
+            # the same entry addressed from the end (negative indices, which get / get_many / the dense array accept): same value, same gradient
+            ineg = [int(x) - n for x, n in zip(i, shape)]
+            imix = [int(x) - n if k % 2 == 0 else int(x) for k, (x, n) in enumerate(zip(i, shape))]
+            for alt in (ineg, imix):
+                v2, gr2 = teneva.get_and_grad(Y, list(alt))
+                g2 = teneva.get(Y, list(alt))
+                gm2 = teneva.get_many(Y, np.array([alt, alt]))
+                res.check(v2 == v and g2 == teneva.get(Y, list(i)) and gm2.shape == (2,) and np.array_equal(gm2, teneva.get_many(Y, np.array([list(i), list(i)]))) and len(gr2) == d
+                          and all(np.array_equal(a_, b_) for a_, b_ in zip(gr2, gr)), 'negative_index', dict(case, i=[int(x) for x in alt]),
+                          lambda: 'index %s (from the end) gives another value or gradient than %s' % (list(alt), i.tolist()), tg)
 
 
 def _interfaces(res, case, Y, shape, exact, cb, tg, full=True):
@@ -404,6 +414,13 @@ def check_leaf(c):
             Am = teneva.add_many([Yi, Pf.Y, 0.5, Yi], e=1e-12)
             wm = 2 * root.D + Pf.D + 0.5
             oki = oki and np.abs(ref.dense(Am) - wm).max() <= 1e-9 * (1 + np.abs(wm).max())
+            if len(root.Y) >= 2:
+                Ymx = [G.copy() for G in root.Y]
+                Ymx[0] = Yi[0]                                       # integer-typed FIRST core, float cores behind it
+                Ymx[-1] = Ymx[-1] * 0.5
+                bigm = np.tile(grid, (20011 // len(grid) + 1, 1))[:20011]
+                wmx = (root.D * 0.5)[tuple(bigm.T)]
+                oki = oki and np.abs(teneva.get_many(Ymx, bigm) - wmx).max() <= 1e-12 * (1 + np.abs(wmx).max())
             vst, pst = teneva.mul_scalar(Yi, Yi, use_stab=True)
             oki = oki and abs(vst * 2.0 ** pst - float((root.D * root.D).sum())) <= 1e-12 * (1 + float((root.D * root.D).sum()))
         res.check(bool(oki), 'int_typed_cores', case, 'integer-typed cores (int64) are not evaluated like the same values stored as floats', tags)
